@@ -303,6 +303,10 @@ func (c *Context) HandleEnvelop(envelop vivid.Envelop) {
 	currentState := atomic.LoadInt32(&c.state)
 	killingOrKilled := (currentState == killed) || (!envelop.System() && currentState != running) // 是否处于停止中或死亡状态
 	if killingOrKilled && !c.zombie {                                                             // 是否处于僵尸状态
+		if c.parent == nil && currentState == killed {
+			// 根 Actor 已终止（系统已停止）：无处投递死信，直接丢弃，否则死信会被无限次重新包装并投回自身
+			return
+		}
 		c.system.TellSelf(ves.DeathLetterEvent{
 			Envelope: envelop,
 			Time:     time.Now(),
